@@ -10,7 +10,7 @@ RULE = ('every clause body tree with <= N operators from , ; -> \\+ over the 8 l
         'c(..,Z):-m(Z),p(..). plus a dynamic fact p(7..), in 6 context variants: with / without a two-solution goal to '
         'the LEFT of the body x 0, 1 or 2 goals to its RIGHT (thorough, 3 operators: 2 of the 6 variants; and a second '
         'script adding p(6..) without overwrite); compiled, loaded into a fresh engine, query c(A1..Ak,Z) run twice '
-        'and compared answer by answer with RefProlog. states = distinct answer sequences; '
+        'and compared answer by answer with RefProlog; plus cuts behind a head that may not match: every pair of the 13 head-argument shapes (repeated variables, constants, structures, lists) x every body of <= 1 operator over {! o m fail} with a cut, followed by a catch-all clause, queried with every pair of 6 argument shapes. states = distinct answer sequences; '
         'transitions = next() calls on the real engine; non-trivial = at least one answer')
 ASSUMPTIONS = ['RefProlog (mc/refprolog.py) implements standard cut semantics',
                'cuts in the condition of -> or under \\+ are outside the property and skipped',
@@ -23,7 +23,57 @@ def bounds(tier):
 
 def plan(tier):
     maxops = 2 if tier == 'quick' else 3
-    return [(k, treecheck.NSHARDS, maxops, tier) for k in range(treecheck.NSHARDS)]
+    return [(k, treecheck.NSHARDS, maxops, tier) for k in range(treecheck.NSHARDS)] + [('heads', k, 32, tier) for k in range(32)]
+
+
+# ---- cuts behind a head that may not match ---------------------------------------------------
+# A cut commits only if it is REACHED: the clause that contains it has a head with repeated
+# variables, constants or structures, so for some calls the head unification fails and the later
+# clauses must still be tried.
+def head_cases(tier):
+    from . import c01
+    hs = c01.head_shapes()
+    cut_trees = [t for n in range(2 if tier != 'quick' else 2) for t in bodies.trees(n, ['!', 'o', 'm', 'fail'])
+                 if bodies.cut_positions(t)[0] >= 1 and bodies.cut_positions(t)[1] == 0]
+    idx = 0
+    for h1 in hs:
+        for h2 in hs:
+            for t in cut_trees:
+                yield idx, (h1, h2), t
+                idx += 1
+
+
+def head_case(head, tree):
+    from . import c01
+    from ..diff import Case
+    from ..terms import F, C, V, A
+    body, k = bodies.instantiate(tree)
+    args = c01.fix_anon(head)
+    leafvars = [V('V%d' % i) for i in range(1, k + 1)]
+    clause1 = (F('p', *(args + leafvars)), body)
+    clause2 = (F('p', ('v', ('_', 7)), ('v', ('_', 8)), *[C(8)] * k), ('true',))
+    qshapes = c01.QUERY3
+    queries = [F('p', q1, q2, *[V('L%d' % i) for i in range(1, k + 1)]) for q1 in qshapes for q2 in qshapes]
+    return Case([(bodies.LEAF_PROGRAM, True, True), ([clause1, clause2], True, False)], [], queries, repeat=1)
+
+
+def run_heads(spec):
+    from ..diff import account
+    from ..runner import Acc
+    from ..terms import show_clause
+    _, k, n, tier = spec
+    acc = Acc()
+    for idx, head, tree in head_cases(tier):
+        if idx % n != k:
+            continue
+        case = head_case(head, tree)
+        res = case.run()
+        if res['status'] == 'violation':
+            res['sig'] = 'head-guarded-cut:' + res['sig']
+        account(acc, ('H', idx), case, res, key=show_clause(case.scripts[1][0][0]))
+        if idx % 997 == 0 and res['status'] == 'ok':
+            acc.sample({'head_guarded_cut': case.describe()['scripts'][1]['text'], 'queries_compared': res['queries']}, limit=1)
+    return acc
 
 
 def select(t):
@@ -36,6 +86,8 @@ def select(t):
 
 
 def run_shard(spec):
+    if spec[0] == 'heads':
+        return run_heads(spec)
     k, n, maxops, tier = spec
     # context variants: a goal with alternatives to the left of the body (the cut must discard
     # them) and 0, 1 or 2 goals to its right (they must still backtrack)
